@@ -621,3 +621,22 @@ func rdWfB(r io.ByteReader) bool {
 
 //@ func (Component).Hash
 //@   trusted
+
+// exported names of the TLV-number spec functions, for contracts in other packages
+func SpecTLLen(x uint64) int           { return specTLLen(x) }
+func SpecTLSize(b []byte, o int) int   { return specTLSize(b, o) }
+func SpecTLVal(b []byte, o int) uint64 { return specTLVal(b, o) }
+
+// specBytesEq9: a[ao+i] == b[bo+i] for the first min(n, 9) positions (quantifier-free on purpose).
+func specBytesEq9(a []byte, ao int, b []byte, bo int, n int) bool {
+	return (n < 1 || a[ao] == b[bo]) && (n < 2 || a[ao+1] == b[bo+1]) && (n < 3 || a[ao+2] == b[bo+2]) &&
+		(n < 4 || a[ao+3] == b[bo+3]) && (n < 5 || a[ao+4] == b[bo+4]) && (n < 6 || a[ao+5] == b[bo+5]) &&
+		(n < 7 || a[ao+6] == b[bo+6]) && (n < 8 || a[ao+7] == b[bo+7]) && (n < 9 || a[ao+8] == b[bo+8])
+}
+
+// If two byte sequences agree on the bytes of a variable-length number, they decode to the same number.
+//
+//@ func lemmaTLContent
+//@   requires 0 <= ao && 0 <= bo && n >= 1 && (n >= specTLSize(b, bo) || n >= specTLSize(a, ao)) && specBytesEq9(a, ao, b, bo, n)
+//@   ensures specTLSize(a, ao) == specTLSize(b, bo) && specTLVal(a, ao) == specTLVal(b, bo)
+func lemmaTLContent(a []byte, ao int, b []byte, bo int, n int) {}
